@@ -45,7 +45,7 @@ ADV = [0, 1, 500, 999, 1000, 1001, 5000, 9999, 10000, 10001, 60000, 843750, 1124
 
 def floors(tier):
     q = tier == "quick"
-    return {"c04.alternate": 30000 if q else 3000000, "c04.live_equals_cache": 60000 if q else 6000000, "c04.visible_in_add": 5000 if q else 400000, "c04.threaded": 8 if q else 24}
+    return {"c04.alternate": 30000 if q else 3000000, "c04.live_equals_cache": 60000 if q else 6000000, "c04.visible_in_add": 5000 if q else 400000, "c04.threaded": 8 if q else 24, "c04.thread_safety": 2 if q else 8, "c04.thread_safety.loads": 2000 if q else 8000}
 
 
 def plan(tier, seed):
@@ -442,6 +442,82 @@ async def _cached(zc: Any, T: str) -> Set[str]:
     return {r.alias.lower() for r in zc.cache.entries_with_name(T) if isinstance(r, d.DNSPointer)}
 
 
+def run_thread_safety(res: Result, seed: int) -> None:
+    """What a listener of the thread-based browser does from add_service - ServiceInfo(type, name).load_from_cache(zc), the
+    accessors documented as thread-safe - executed on a non-loop thread in a tight loop while the loop thread keeps changing
+    the records of that very instance and host (new address, goodbye, new TXT).  With a short interpreter switch interval the
+    two threads interleave inside the cache scans; nothing may raise and every successful load must carry the SRV data."""
+    import sys
+    import threading
+    import time
+    from zeroconf import ServiceInfo
+    from ..threadrun import BlockingInstance
+    rng = random.Random(seed)
+    res.evaluations += 1
+    T = BASE_TYPES[0]
+    name = "safe." + T
+    hostn = "safe-host.local."
+    old_iv = sys.getswitchinterval()
+    try:
+        with BlockingInstance() as bi:
+            zc = bi.zc
+            bi.inject(R.build_response([(("PTR", T, (name,)), 4500, False), (("SRV", name, (0, 0, 8080, hostn)), 120, True), (("TXT", name, (b"\x03a=1",)), 4500, True),
+                                        (("A", hostn, (b"\x0a\x07\x00\x01",)), 120, True)], id_=1))
+            bi.settle(5)
+            errors: List[str] = []
+            loads = [0, 0]
+            stop = threading.Event()
+
+            def reader() -> None:
+                while not stop.is_set():
+                    try:
+                        info = ServiceInfo(T, name)
+                        ok = info.load_from_cache(zc)
+                        loads[0] += 1
+                        if ok:
+                            loads[1] += 1
+                            if info.port != 8080 or (info.server or "").lower() != hostn:
+                                errors.append("load_from_cache returned port %r server %r" % (info.port, info.server))
+                    except Exception as e:  # noqa
+                        errors.append("load_from_cache on a non-loop thread raised %r" % (e,))
+                        return
+            sys.setswitchinterval(1e-5)
+            th = threading.Thread(target=reader, daemon=True)
+            th.start()
+            n_dgrams = 0
+            t_end = time.monotonic() + 1.2
+            while time.monotonic() < t_end and not errors:
+                k = rng.randrange(2, 40)
+                addr = bytes([10, 7, 0, k])
+                what = rng.random()
+                if what < 0.45:
+                    recs = [(("A", hostn, (addr,)), 120, False)]
+                elif what < 0.9:
+                    recs = [(("A", hostn, (addr,)), 0, False)]
+                else:
+                    recs = [(("TXT", name, (b"\x03a=%d" % (k % 10),)), 4500, True)]
+                bi.inject(R.build_response(recs, id_=2 + n_dgrams))
+                n_dgrams += 1
+                if n_dgrams % 8 == 0:
+                    time.sleep(0.001)
+            stop.set()
+            th.join(10)
+            sys.setswitchinterval(old_iv)
+            res.mon("c04.thread_safety")
+            res.mon("c04.thread_safety.loads", loads[0])
+            if errors:
+                res.violation("c04.visible_in_add", "lookup_from_browser_thread_failed", "%s (after %d loads, %d datagrams)" % (errors[0], loads[0], n_dgrams), {},
+                              {"seed": seed, "thread_safety": True})
+            bad = [e for e in bi.net.escapes if "was destroyed but it is pending" not in str(e.get("message"))]
+            if bad:
+                res.violation("c04.alternate", "threaded_loop_exception", repr(bad[0])[:500], {}, {"seed": seed, "thread_safety": True})
+            res.cls("thread_safety", "loads>=%d" % (1000 * (loads[0] // 1000)))
+    except Exception as e:
+        res.inconclusive.append("thread-safety run crashed in harness: %r" % (e,))
+    finally:
+        sys.setswitchinterval(old_iv)
+
+
 def run_shard(spec):
     res = Result()
     rng = rng_for("c04", spec["seed"], spec["shard"])
@@ -449,11 +525,16 @@ def run_shard(spec):
         run_history(res, rng.randrange(1 << 30), rng.choice([6, 12, 25, 50]))
     for _ in range(spec.get("threaded", 0)):
         run_threaded(res, rng.randrange(1 << 30))
+    if spec.get("threaded", 0):
+        run_thread_safety(res, rng.randrange(1 << 30))
     return res
 
 
 def replay(blob):
     res = Result()
+    if blob.get("thread_safety"):
+        run_thread_safety(res, blob["seed"])
+        return res
     if blob.get("threaded"):
         run_threaded(res, blob["seed"])
         return res
